@@ -40,12 +40,25 @@ def _run_chunk(args):
     return out
 
 
-def _raise_worker_errors(results):
+def _raise_worker_errors(results, strict=False):
+    """A Python exception inside a worker is a harness bug.  A handful of them (< 2 % of the items, at most
+    10) must not take the whole check down: those items are returned as `WorkerError` objects, which
+    `pairs()` skips and counts; more than that is an infrastructure failure."""
     errs = [r for r in results if isinstance(r, WorkerError)]
-    if errs:
+    if errs and (strict or len(errs) > 10 or len(errs) * 50 > max(1, len(results))):
         from .common import Infra
         raise Infra(f"{len(errs)} worker exception(s) in the harness; first on item {errs[0].item}:\n{errs[0].tb}")
     return results
+
+
+def pairs(ctx, jobs, results):
+    """zip(jobs, results) without the items whose worker raised a harness exception (counted in the evidence)."""
+    for job, r in zip(jobs, results):
+        if isinstance(r, WorkerError):
+            ctx.count("harness-exception-skipped")
+            ctx.extra.setdefault("harness_exceptions", []).append({"item": r.item, "traceback": r.tb[-400:]})
+            continue
+        yield job, r
 
 
 def _kill(ex):
@@ -57,7 +70,7 @@ def _kill(ex):
             pass
 
 
-def pmap(func, items, workers: int | None = None, chunk: int = 64, task_timeout: float = 300.0):
+def pmap(func, items, workers: int | None = None, chunk: int = 64, task_timeout: float = 300.0, strict: bool = False):
     """Deterministic parallel map (order preserved) over spawned workers.  A worker that dies or hangs
     does not hang the map: its chunk is retried item by item in fresh processes and the offending item
     yields a `Crashed` result."""
@@ -66,7 +79,7 @@ def pmap(func, items, workers: int | None = None, chunk: int = 64, task_timeout:
     workers = workers or min(14, max(1, (os.cpu_count() or 2) - 2))
     if (len(items) < 50 and chunk >= 16) or workers == 1:
         _init()
-        return _raise_worker_errors(_run_chunk((func, items)))
+        return _raise_worker_errors(_run_chunk((func, items)), strict)
     ctx = mp.get_context("spawn")
     chunks = [items[i:i + chunk] for i in range(0, len(items), chunk)]
     results: list = [None] * len(chunks)
@@ -88,7 +101,7 @@ def pmap(func, items, workers: int | None = None, chunk: int = 64, task_timeout:
         sub = _pmap_isolated(func, singles, workers, ctx, task_timeout)
         for k in broken:
             results[k] = [r for r, o in zip(sub, owner) if o == k]
-    return _raise_worker_errors([r for ch in results for r in ch])
+    return _raise_worker_errors([r for ch in results for r in ch], strict)
 
 
 def _pmap_isolated(func, singles, workers, ctx, task_timeout):
